@@ -887,9 +887,15 @@ func evaluateBoolOperator(node *ExprNode, data map[string]any) (bool, error) {
 		} else {
 			return false, fmt.Errorf("NOT operator requires an operand")
 		}
-		result, err := evaluateBoolNode(operand, data)
+		// NOT needs to know whether its operand is UNKNOWN (a comparison with NULL, a NULL
+		// boolean): NOT UNKNOWN is UNKNOWN, i.e. not true, while the two-valued evaluation
+		// would turn the operand's "not true" into NOT false = true.
+		result, unknown, err := evaluateTruth(operand, data)
 		if err != nil {
 			return false, err
+		}
+		if unknown {
+			return false, nil
 		}
 		return !result, nil
 
@@ -916,6 +922,90 @@ func evaluateBoolOperator(node *ExprNode, data map[string]any) (bool, error) {
 	default:
 		return false, fmt.Errorf("unsupported boolean operator: %s", operator)
 	}
+}
+
+// evaluateTruth evaluates a condition in SQL's three-valued logic. The truth value
+// UNKNOWN is reported through the second result instead of being folded into false,
+// so that NOT can keep it UNKNOWN. Nodes that are not conditions are evaluated by
+// evaluateBoolNode (never UNKNOWN).
+func evaluateTruth(node *ExprNode, data map[string]any) (value bool, unknown bool, err error) {
+	if node == nil {
+		return false, false, fmt.Errorf("null expression node")
+	}
+	switch node.Type {
+	case TypeParenthesis:
+		if node.Left != nil {
+			return evaluateTruth(node.Left, data)
+		}
+	case TypeField:
+		v, err := evaluateFieldValue(node, data)
+		if err != nil || v == nil {
+			return false, true, nil
+		}
+		return convertToBool(v), false, nil
+	case TypeFunction:
+		v, err := evaluateFunctionValue(node, data)
+		if err != nil {
+			return false, false, err
+		}
+		if v == nil {
+			return false, true, nil
+		}
+		return convertToBool(v), false, nil
+	case TypeOperator:
+		operator := strings.ToUpper(node.Value)
+		switch operator {
+		case "AND", "&&", "OR", "||":
+			isAnd := operator == "AND" || operator == "&&"
+			left, leftUnknown, err := evaluateTruth(node.Left, data)
+			if err != nil {
+				return false, false, err
+			}
+			if !leftUnknown && left != isAnd {
+				return left, false, nil // false AND x, true OR x
+			}
+			right, rightUnknown, err := evaluateTruth(node.Right, data)
+			if err != nil {
+				return false, false, err
+			}
+			if !rightUnknown && right != isAnd {
+				return right, false, nil // x AND false, x OR true
+			}
+			if leftUnknown || rightUnknown {
+				return false, true, nil
+			}
+			return isAnd, false, nil
+		case "NOT", "!":
+			operand := node.Left
+			if operand == nil {
+				operand = node.Right
+			}
+			if operand == nil {
+				return false, false, fmt.Errorf("NOT operator requires an operand")
+			}
+			result, unknown, err := evaluateTruth(operand, data)
+			if err != nil || unknown {
+				return false, unknown, err
+			}
+			return !result, false, nil
+		case "==", "=", "!=", "<>", ">", "<", ">=", "<=", "LIKE":
+			leftValue, err := evaluateNodeValue(node.Left, data)
+			if err != nil {
+				return false, false, err
+			}
+			rightValue, err := evaluateNodeValue(node.Right, data)
+			if err != nil {
+				return false, false, err
+			}
+			if leftValue == nil || rightValue == nil {
+				return false, true, nil
+			}
+			result, err := compareValues(leftValue, rightValue, operator)
+			return result, false, err
+		}
+	}
+	result, err := evaluateBoolNode(node, data)
+	return result, false, err
 }
 
 // evaluateBoolFunction evaluates boolean functions
